@@ -387,6 +387,35 @@ def drv_electre(tier, rng):
     return groups
 
 
+def drv_electre_near(tier, rng):
+    """listing-order twins (C06) on values that agree to many decimals without being identical: a copy of an alternative is
+    nudged by k x 2^-44 on a criterion without thresholds (any difference is a strict preference there).  The nudges are
+    below the resolution of the case integers, so only the relation between the twins is judged (methodref off)."""
+    groups = []
+    for t in range(60 if tier == 'quick' else 1200):
+        m = rng.randint(2, 3)
+        n = rng.randint(2, 3)
+        req, f = electre_req(rng, n, m, [1, 2, 3, 5, 6], 0)
+        ec = req['methodParameters']['electreCriteria']
+        free = rng.choice(req['criteria'])['id']
+        ec[free] = {'k': ec[free]['k']}                # no q / p / v on this criterion
+        ka = req['knownAlternatives']
+        src = rng.choice(ka)
+        twin = {'id': 'z0', 'criteria': dict(src['criteria'])}
+        ka.append(twin)
+        req['choseToMake'].append('z0')
+        third = {'id': 'z1', 'criteria': dict(src['criteria'])}
+        other = rng.choice([c['id'] for c in req['criteria'] if c['id'] != free])
+        third['criteria'][other] += UNIT * rng.choice([-1, 1])
+        ka.append(third)
+        req['choseToMake'].append('z1')
+        nud = [{'alt': 'z0', 'crit': free, 'k': rng.choice([1, 2, -1]), 'e': 44}, {'alt': 'z1', 'crit': free, 'k': rng.choice([1, 2, -1]), 'e': 44}]
+        g = [base_case(r, sa=f[2], sb=f[3], failprop='C05', methodref=False, nudge=nud, group={'id': 'x', 'rel': 'perm', 'p': 'C06'})
+             for r in perm_twins(rng, req, 'C06', 3)]
+        groups.append(g)
+    return groups
+
+
 def drv_electre_dom(tier, rng):
     """dominated neighbours (C06): a few alternatives on a 0..10 grid with veto-carrying criteria whose differences often
     equal a threshold exactly, plus 'shadows' - copies of an alternative made slightly worse on some criteria - so that
@@ -1038,7 +1067,7 @@ FAMILIES = {
         'mc': 'MC_ElectreE',
         'mc_cfg': {'quick': 'MC_ElectreE_quick.cfg', 'thorough': 'MC_ElectreE_thorough.cfg'},
         'mc_sample': {'quick': 600, 'thorough': 20000}, 'mc_workers': 12, 'mc_timeout': {'thorough': 5400},
-        'mode': 'decide', 'trace': 'Trace_Decide', 'drivers': [drv_electre], 'chunk_lines': 80, 'trace_chunks': 12,
+        'mode': 'decide', 'trace': 'Trace_Decide', 'drivers': [drv_electre, drv_electre_near], 'chunk_lines': 80, 'trace_chunks': 12,
     },
     'electre_dom': {
         'mode': 'decide', 'trace': 'Trace_Decide', 'drivers': [drv_electre_dom], 'screen': 'c06',
